@@ -3,7 +3,6 @@ package main
 import (
 	"fmt"
 	"os"
-	"strings"
 
 	"github.com/avfs/avfs"
 	"github.com/avfs/avfs/vfs/memfs"
@@ -191,7 +190,7 @@ func chainSweep(w *world, e *evaluator, report func(sig kf.Sig, key [4]int, repl
 							}
 						}
 
-						for _, f := range e.compareRO(cs, strings.Split(cq.path, "/"), rk, rv) {
+						for _, f := range e.compareRO(cs, q, rk, rv) {
 							if f.kind == "lstat-attr" {
 								continue // covered by the graph space
 							}
